@@ -50,6 +50,19 @@ CHECKS.update({
          "own writes, mutable members (except the registry's tracker map, as the property excludes), const_casts or local statics. Observed only (ThreadSanitizer, 2..16 threads): absence of data races in the binary.",
          "Coq proof (schedule theorem + regenerated const-write table decided by computation); TSan stress run", "6 C20"),
 })
+CHECKS.update({
+ "C01": ("proof", "Theorems: caches computed from scratch are the exact, duplicate-free inverse of the stored definitions of not-deleted entities (every state); the invariant's decision procedures are sound "
+         "and are evaluated on every explored model state, which is compared cache for cache (with order) with the library; under the invariant the closure queries and every circulator list / valence / "
+         "is_boundary equal the brute-force sets (Properties_C01_queries.v). Preservation of the invariant by every incremental update path is NOT proved (obstacle: halfface re-ordering, see the file).",
+         "Coq proof (recompute exact, sound checkers, queries = brute force under the invariant) + lock step of caches and all accessors + brute-force oracles", "6 C01"),
+ "C04": ("proof", "Theorems: after collect_garbage / leaving deferred mode no deletion is pending (all counters zero through the whole nest of passes), modes restored, every array one element per slot; "
+         "identity without pending deletions. 'Logical mesh unchanged', equivalence with immediate deletion and StatusAttrib handle tracking are tied by lock step and decided on the library by the "
+         "identity-token oracle, not proved.",
+         "Coq proof (post-conditions of collection) + lock-step correspondence + logical-mesh oracle", "6 C04"),
+ "C12": ("proof", "Theorems: toggling a kind changes only its cache and flag; re-enabling yields exactly the incidences (vertex, face kinds in full; edge kind before re-ordering); the deleted closure and the "
+         "slot exchange of swaps are independent of the enabled subset. 'No out-of-range access with a kind disabled' is decided by sanitizers on the lock-step runs in all 32 mode cells and the twin-mesh oracle.",
+         "Coq proof (re-enable exact, closure independent of caches) + lock step in all incidence subsets x deletion modes under sanitizers + twin-mesh oracle", "6 C12"),
+})
 NOT_YET = {}
 def main():
     props = [json.loads(l)["id"] for l in open(os.path.join(VERIF, "properties.jsonl"))]
